@@ -11,6 +11,24 @@
   c17m <tag> <ver> <ids> <desired> <newName> <nows> <state> <frontier> <journal> <index> <latest>
         resolveBisyncCheckpointNameWithClient; desired = sync|pipeline|parallel; nows = "." | int{,int};
         the last four fields: recovery state of the namespace the hash resolves to (see Drive/C14.lean)
+  c17mb <tag> <ver> <ids> <desired> <newName> <nows> <state> <frontier> <journal> <index> <latest>      (fields as c17m)
+        the position a bidirectional start uses (`MigrateNs.bisyncStart` / `nextStart`): answer
+        "cur=<mode|-> before=<offset|none> after=<o>{,<o>}": the start in the current mode before the switch, and the
+        next start (switch completed into a second name, then StartPoint in the desired mode) after every prefix of
+        `MigrateNs.migrateReqsB`, consecutive duplicates removed
+  c17bare <tag> <ver> <mas> <sec> <lab> <key> <state>   the invariant `BookSys.Bare` (no position): "bare <position>" | "bad <clause>"
+  c17good <tag> <ver> <mas> <sec> <lab> <key> <pend> <up> <state>      the invariant `BookSys.Good` (Proofs/BookGood.lean) on a
+        state the real writers produced: answer "good <offset>@<db>" (the position) or "bad <clause>"
+  c17w <tag> <ver> <key> <rid> <trace>     trace = "." | item{,item}, item = <db>:m | <db>:o<int>: the HSETs of the replay
+        path (`BookSys.writeReq`), one answer line per request
+  c17life <tag> <ver> <key> <rid> <wire> <state>   wire = "." | tok{,tok}: the requests of a sender session as they reached the
+        target, in wire order: s<db> select, M multi, E exec, m the run-id/version HSET, o<int> the offset HSET, p ping,
+        c any other command. The driver runs `BookSys.lifeReqs` (`logTrace`: MULTI queueing, EXEC, the database of the
+        connection) on the state and answers the fields of the key per database afterwards, HGETALL order
+  c17eq <tag> <text>     echo (the harness diffs an observation against a recorded one at tie level)
+  c17sr <tag> <ver> <loc> <runId> <spIds> <calls> <state>   RedisOutput.SetRunId over calls (`BookSys.setRunId`):
+        calls = "." | call{;call}, call = <id>/<att>{+<att>} | <id>/_, att = <k>:<now>:<o1>:<o2> (o = "." | nat{.nat});
+        answer: per call "call ret=<true|false> runId=<hex>", per attempt its applied requests, last "sp=<position>"
 
   answer (every line prefixed "#<tag> "):
      n=<number of write requests> sp=<resume position before>
@@ -22,6 +40,9 @@ import GunYu.Model.Checkpoint
 import GunYu.Model.Migrate
 import GunYu.Gen.CheckpointConsts
 import GunYu.Drive.C14
+import GunYu.Model.BookSys
+import GunYu.Model.MigrateNs
+import GunYu.Proofs.BookBare
 namespace GunYu.Drive.C17
 open GunYu GunYu.Checkpoint
 
@@ -132,6 +153,196 @@ def render (tag : String) (ver : Bytes) (ids : List Bytes) (dbs : List Nat) (t :
 def ordersList? (s : String) : Option (List (List Nat)) :=
   if s == "." then some [] else (s.splitOn ";").mapM natList?
 
+
+/-! ### the invariant of the writers, evaluated on a concrete state (Proofs/BookGoodB.lean: the Bool decides `Good`) -/
+
+open GunYu.BookSys in
+/-- "" = every clause of `Good t c X d` holds for the position the start reads -/
+def goodWhy (ver : Bytes) (dbs : List Nat) (keys : List Bytes) (t : Target) (c : Ctl) : String × Option (Int × Nat) :=
+  match startPoint ver [c.mas, c.sec] dbs t with
+  | some (some (X, d)) => (firstBad (goodChecks dbs keys t c X d), some (X, d))
+  | _ => ("position", none)
+
+def traceItem? (s : String) : Option (Int × BookSys.BkW) :=
+  match s.splitOn ":" with
+  | [d, k] => do
+    let d ← d.toInt?
+    if k == "m" then pure (d, .rmeta)
+    else if k.startsWith "o" then do
+      let o ← (k.drop 1).toInt?
+      pure (d, .off o)
+    else none
+  | _ => none
+
+def natDots? (s : String) : Option (List Nat) :=
+  if s == "." then some [] else (s.splitOn ".").mapM String.toNat?
+
+def attempt? (s : String) : Option Attempt :=
+  match s.splitOn ":" with
+  | [k, now, o1, o2] => do pure { k := ← k.toNat?, now := ← now.toInt?, o1 := ← natDots? o1, o2 := ← natDots? o2 }
+  | _ => none
+
+def call? (s : String) : Option (Bytes × List Attempt) :=
+  match s.splitOn "/" with
+  | [id, as] => do
+    let id ← Hex.decode id
+    let as ← if as == "_" then some [] else (as.splitOn "+").mapM attempt?
+    pure (id, as)
+  | _ => none
+
+/-- `setRunId` with the requests each attempt applied (what `BookSys.retryLoop` does, keeping the trace) -/
+def srTrace (tag : String) (ver loc id : Bytes) : BookSys.RunIdSt → List Attempt → List String × BookSys.RunIdSt × Bool
+  | s, [] => ([], s, false)
+  | s, a :: rest =>
+    let rs := updateReqs ver s.t loc [id, s.runId] a.o1 a.o2 a.now
+    let r := BookSys.attemptOnce ver loc s id a
+    let lines := s!"#{tag} att n={(rs.take a.k).length} done={r.2}" :: (rs.take a.k).map (fun q => s!"#{tag} {reqStr q}")
+    if r.2 then (lines, { t := r.1, runId := id }, true)
+    else
+      let (l2, s2, ok) := srTrace tag ver loc id { s with t := r.1 } rest
+      (lines ++ l2, s2, ok)
+
+def handleSys : List String → Option (List String)
+  | ["c17bare", tag, ver, mas, sec, lab, key, dbs, hash, cps] =>
+    let r : Option (List String) := do
+      let ver ← Hex.decode ver
+      let mas ← Hex.decode mas
+      let sec ← Hex.decode sec
+      let lab ← Hex.decode lab
+      let key ← Hex.decode key
+      let items ← cps? cps
+      let (dbs, t) ← state? dbs hash cps
+      let keys := (items.map (·.2.1)).eraseDups
+      let c : BookSys.Ctl := { key := key, lab := lab, mas := mas, sec := sec }
+      let why := BookSys.firstBad (BookSys.bareChecks dbs keys t c)
+      let sp := spStr (startPoint ver [mas, sec] dbs t)
+      pure [if why == "" then s!"#{tag} bare {sp}" else s!"#{tag} bad {why} {sp}"]
+    some (r.getD [s!"#{tag} bad-op"])
+  | ["c17good", tag, ver, mas, sec, lab, key, pend, up, dbs, hash, cps] =>
+    let r : Option (List String) := do
+      let ver ← Hex.decode ver
+      let mas ← Hex.decode mas
+      let sec ← Hex.decode sec
+      let lab ← Hex.decode lab
+      let key ← Hex.decode key
+      let pend ← if pend == "-" then some none else (Hex.decode pend).map some
+      let items ← cps? cps
+      let (dbs, t) ← state? dbs hash cps
+      let keys := (items.map (·.2.1)).eraseDups
+      let c : BookSys.Ctl := { key := key, lab := lab, mas := mas, sec := sec, pend := pend, up := up == "1" }
+      let (why, pos) := goodWhy ver dbs keys t c
+      let ps := match pos with | some (x, d) => s!"{x}@{d}" | none => "none"
+      pure [if why == "" then s!"#{tag} good {ps}" else s!"#{tag} bad {why} {ps}"]
+    some (r.getD [s!"#{tag} bad-op"])
+  | ["c17w", tag, ver, key, rid, trace] =>
+    let r : Option (List String) := do
+      let ver ← Hex.decode ver
+      let key ← Hex.decode key
+      let rid ← Hex.decode rid
+      let tr ← if trace == "." then some [] else (trace.splitOn ",").mapM traceItem?
+      pure ((tr.flatMap (BookSys.writeReq key rid ver)).map (fun q => s!"#{tag} {reqStr q}"))
+    some (r.getD [s!"#{tag} bad-op"])
+  | ["c17sr", tag, ver, loc, runId, spIds, calls, dbs, hash, cps] =>
+    let r : Option (List String) := do
+      let ver ← Hex.decode ver
+      let loc ← Hex.decode loc
+      let runId ← Hex.decode runId
+      let spIds ← hexList? spIds
+      let calls ← if calls == "." then some [] else (calls.splitOn ";").mapM call?
+      let (dbs, t) ← state? dbs hash cps
+      let rec go (s : BookSys.RunIdSt) : List (Bytes × List Attempt) → List String × BookSys.RunIdSt
+        | [] => ([], s)
+        | (id, as) :: rest =>
+          if s.runId = id then
+            let (l2, s2) := go s rest
+            (s!"#{tag} call ret=true runId={Hex.encode s.runId}" :: l2, s2)
+          else
+            let (lines, s1, ok) := srTrace tag ver loc id s (as.take 3)
+            let (l2, s2) := go s1 rest
+            (lines ++ [s!"#{tag} call ret={ok} runId={Hex.encode s1.runId}"] ++ l2, s2)
+      let (lines, sEnd) := go { t := t, runId := runId } calls
+      -- the databases a start enumerates: those of the state and those written to
+      let sp := spStr (startPoint ver spIds (dbs ++ (List.range 16).filter (fun d => ¬ dbs.contains d)) sEnd.t)
+      pure (lines ++ [s!"#{tag} end runId={Hex.encode sEnd.runId} sp={sp}"])
+    some (r.getD [s!"#{tag} bad-op"])
+  | _ => none
+
+def modeStr : Migrate.BMode → String
+  | .sync => "sync" | .pipeline => "pipeline" | .parallel => "parallel"
+
+def dedupAdj : List String → List String
+  | a :: b :: rest => if a = b then dedupAdj (b :: rest) else a :: dedupAdj (b :: rest)
+  | l => l
+
+def offStr : Option Int → String
+  | some o => toString o
+  | none => "none"
+
+def handleMb : List String → Option (List String)
+  | ["c17mb", tag, ver, ids, desired, newName, nows, dbs, hash, cps, frontier, journal, index, latest] =>
+    let r : Option (List String) := do
+      let ver ← Hex.decode ver
+      let ids ← hexList? ids
+      let desired ← if desired == "sync" then some Migrate.BMode.sync
+        else if desired == "pipeline" then some .pipeline
+        else if desired == "parallel" then some .parallel else none
+      let newName ← Hex.decode newName
+      let nows ← if nows == "." then some [] else (nows.splitOn ",").mapM String.toInt?
+      let (dbs, t) ← state? dbs hash cps
+      let fr ← C14.snap? frontier
+      let j ← C14.list? C14.jrec? journal
+      let ix ← C14.list? C14.idx? index
+      let lt ← if latest == "-" then some none else (C14.rec? latest).map some
+      let ns : Frontier.NS := { frontier := fr, journal := j, index := ix, latest := lt }
+      let (cpName, _) ← getHash t.hash ids
+      let b : MigrateNs.BT := { t := t, ns := fun nm => if nm = cpName then ns else {} }
+      let order := if dbs.contains 0 then dbs else dbs ++ [0]
+      let cur : Option Migrate.BMode := match Migrate.loadMode t cpName with
+        | some (some m) => some m
+        | some none => none
+        | none => Migrate.inferMode ns ids
+      let before := match cur with
+        | some m => offStr (MigrateNs.startOff (MigrateNs.bisyncStart ver b cpName ids m order))
+        | none => "none"
+      let L := MigrateNs.migrateReqsB ver b ids desired newName nows order 0
+      let newName2 := newName ++ [50]
+      let afters := (List.range (L.length + 1)).map (fun k =>
+        offStr (MigrateNs.startOff (MigrateNs.nextStart ver (MigrateNs.applyAllB b (L.take k)) ids desired newName2 nows order 0)))
+      let cs := match cur with | some m => modeStr m | none => "-"
+      pure [s!"#{tag} cur={cs} before={before} after={",".intercalate (dedupAdj afters)}"]
+    some (r.getD [s!"#{tag} bad-op"])
+  | _ => none
+
+def wireTok? (s : String) : Option Sender.Req :=
+  if s == "M" then some .multi
+  else if s == "E" then some .exec
+  else if s == "m" then some .cpMeta
+  else if s == "p" then some (.cmd Sender.bPing [] 0)
+  else if s == "c" then some (.cmd [115, 101, 116] [] 0)
+  else if s.startsWith "s" then (s.drop 1).toInt?.map (fun n => .cmd Sender.bSelect [intToDec n] 0)
+  else if s.startsWith "o" then (s.drop 1).toInt?.map (fun o => .cpOffset o)
+  else none
+
+def handleLife : List String → Option (List String)
+  | ["c17life", tag, ver, key, rid, wire, dbs, hash, cps] =>
+    let r : Option (List String) := do
+      let ver ← Hex.decode ver
+      let key ← Hex.decode key
+      let rid ← Hex.decode rid
+      let log ← if wire == "." then some [] else (wire.splitOn ",").mapM wireTok?
+      let (dbs, t) ← state? dbs hash cps
+      let rs := BookSys.lifeReqs key rid ver log
+      let t' := applyAll t rs
+      let alldbs := ((dbs ++ rs.map reqDb).eraseDups).mergeSort (fun a b => decide (a ≤ b))
+      let lines := alldbs.filterMap (fun d =>
+        let fs := t'.cps d key
+        if fs.isEmpty then none
+        else some s!"#{tag} {d}/{Hex.encode key}/{",".intercalate (fs.map (fun e => Hex.encode (fieldName e.key) ++ ":" ++ Hex.encode e.val))}")
+      pure lines
+    some (r.getD [s!"#{tag} bad-op"])
+  | "c17eq" :: tag :: rest => some [s!"#{tag} {" ".intercalate rest}"]
+  | _ => none
+
 def handle : List String → Option (List String)
   | ["c17u", tag, ver, loc, ids, now, o1, o2, dbs, hash, cps] =>
     let r : Option (List String) := do
@@ -171,6 +382,6 @@ def handle : List String → Option (List String)
       let ns : Frontier.NS := { frontier := fr, journal := j, index := ix, latest := lt }
       pure (render tag ver ids dbs t (Migrate.migrateReqs ver t ns ids desired newName nows dbs))
     some (r.getD [s!"#{tag} bad-op"])
-  | _ => none
+  | l => ((handleSys l).orElse (fun _ => handleMb l)).orElse (fun _ => handleLife l)
 
 end GunYu.Drive.C17
